@@ -137,6 +137,11 @@ struct State {
     tracing: bool,
     abort: bool,
     exhausted: bool,
+    /// PCT: priority per thread (higher runs first) and the scheduling-point indices at which the
+    /// running thread's priority drops below everyone else's
+    prio: Vec<i64>,
+    change_points: Vec<u64>,
+    low_water: i64,
     harness_error: Option<String>,
 }
 
@@ -229,6 +234,23 @@ impl Shared {
                         if me_runnable { me } else { cand[0] }
                     }
                 }
+            }
+            None if !st.prio.is_empty() => {
+                // PCT: highest priority runnable thread runs; at a change point the running
+                // thread is demoted below all others
+                let at = st.stats.sched_points;
+                if me != MAIN && st.change_points.contains(&at) {
+                    st.low_water -= 1;
+                    st.prio[me] = st.low_water;
+                }
+                let mut best: Option<usize> = if me_runnable { Some(me) } else { None };
+                for t in &cand {
+                    best = match best {
+                        Some(b) if st.prio[b] >= st.prio[*t] => Some(b),
+                        _ => Some(*t),
+                    };
+                }
+                best.unwrap_or_else(|| cand[0])
             }
             None => {
                 if me_runnable && (cand.is_empty() || !st.rng.pct(switch_pct)) {
@@ -439,6 +461,21 @@ impl Shared {
 }
 
 fn sim_thread(sh: Arc<Shared>, me: usize) {
+    // a panic of the HARNESS itself (library panics are caught inside exec) must not leave the
+    // run waiting for a baton that nobody holds: report it and hand control back to main
+    let sh2 = sh.clone();
+    if let Err(p) = std::panic::catch_unwind(std::panic::AssertUnwindSafe(move || sim_thread_inner(sh2, me))) {
+        let msg = p.downcast_ref::<&str>().map(|s| s.to_string()).or_else(|| p.downcast_ref::<String>().cloned()).unwrap_or_default();
+        let mut st = sh.st.lock().unwrap_or_else(|e| e.into_inner());
+        st.harness_error = Some(format!("simulated thread {} panicked outside an operation: {}", me, msg));
+        st.abort = true;
+        drop(st);
+        sh.baton.store(MAIN, Ordering::Release);
+        sh.main.unpark();
+    }
+}
+
+fn sim_thread_inner(sh: Arc<Shared>, me: usize) {
     CTX.with(|c| *c.borrow_mut() = Some((sh.clone(), me)));
     a5::verif::set_hash_key(sh.scen.threads[me].hash_key);
     a5::verif::set_yield_hook(Some(yield_hook));
@@ -539,8 +576,23 @@ pub fn run(scen: &Scenario, schedule: Schedule, tracing: bool) -> RunOut {
         tracing,
         abort: false,
         exhausted: false,
+        prio: Vec::new(),
+        change_points: Vec::new(),
+        low_water: 0,
         harness_error: None,
     };
+    let mut st = st;
+    if scen.pct_depth > 0 && st.list.is_none() {
+        let mut p: Vec<i64> = (1..=n as i64).collect();
+        st.rng.shuffle(&mut p);
+        st.prio = p;
+        let per_op = if scen.yield_mask != 0 { 10 } else { 1 };
+        let est = (scen.total_ops() * per_op).max(4);
+        for _ in 1..scen.pct_depth {
+            let c = st.rng.below(est);
+            st.change_points.push(c);
+        }
+    }
     let sh = Arc::new(Shared {
         scen: scen.clone(),
         env: Env::new(scen.n_inst.max(1) as usize, scen.n_crs.max(1) as usize),
@@ -571,8 +623,12 @@ pub fn run(scen: &Scenario, schedule: Schedule, tracing: bool) -> RunOut {
         let mut st = sh.st.lock().unwrap_or_else(|e| e.into_inner());
         st.th.iter_mut().filter_map(|t| t.join.take()).collect()
     };
+    let broken = sh.st.lock().unwrap_or_else(|e| e.into_inner()).harness_error.is_some();
     for j in joins {
-        let _ = j.join();
+        // after a harness failure other simulated threads may still be parked: do not wait for them
+        if !broken {
+            let _ = j.join();
+        }
     }
     let mut st = sh.st.lock().unwrap_or_else(|e| e.into_inner());
     if let Some((list, pos, lenient)) = &st.list {
